@@ -1237,6 +1237,7 @@ fn signature__structural_tampering_is_rejected() {
         for keep in [true, false] {
             let mut old_msk = MasterSecretKey::deserialize(&saved).unwrap();
             let mut k = late.clone();
+            let saved = old_msk.serialize().unwrap().to_vec(); // (the order of map entries is per instance)
             let r = cc.refresh_usk(&mut old_msk, &mut k, keep);
             vchk!(r.is_err(), "C08/C17: a key issued after the master key was saved is refreshed by the restored master key, which never issued it (keep = {keep})");
             vchk!(k == late && old_msk.serialize().unwrap().to_vec() == saved, "C08/C10: a refused refresh (identifier unknown to the restored master key) modified the user key or the master key");
